@@ -5,6 +5,8 @@
    discipline (InPlace = shipped code, AtomicRename = repaired code) and the os.access answers.
    A history is any list of labels: LSpawn (a load starts), LStep (one process advances one step -- arbitrary
    interleaving), LCrash (a process disappears before its next step), LEdit (the model file changes).
+   w_rt w = RtIgnored is the shipped rule for the in-process cache (never served); all theorems are about it, the
+   refutation inproc_served_by_path_refuted is about the variant RtServed.
    w_rehash w = true models code whose _write_in_cache takes the cache key from a third read of the model file
    (before the repair "hash the parsed bytes"); false models the repaired code (key = hash of the parsed bytes).
    `quiet` only restricts LEdit, and only when w_rehash w = true: not while a load of that file sits between its
@@ -16,12 +18,12 @@ Import ListNotations.
 
 (* 1. the keyed-content invariant is preserved by every step, under both disciplines *)
 Theorem cache_content_keyed :
-  forall w s0 ls s, Inv w s0 -> quiet w s0 ls -> run w s0 ls = Some s -> Inv w s /\ Keyed w s.
-Proof. intros w s0 ls s HI HQ HR. assert (Inv w s) by (eapply run_inv; eauto). split; auto. apply InvF_Keyed, H. Qed.
+  forall w s0 ls s, w_rt w = RtIgnored -> Inv w s0 -> quiet w s0 ls -> run w s0 ls = Some s -> Inv w s /\ Keyed w s.
+Proof. intros w s0 ls s Hrt HI HQ HR. assert (Inv w s) by (eapply run_inv; eauto). split; auto. apply InvF_Keyed, H. Qed.
 Print Assumptions cache_content_keyed.
 
 Theorem cache_content_keyed_step :
-  forall w s l s', Inv w s -> guard w s l -> step w s l = Some s' -> Inv w s'.
+  forall w, w_rt w = RtIgnored -> forall s l s', Inv w s -> guard w s l -> step w s l = Some s' -> Inv w s'.
 Proof. exact step_inv. Qed.
 Print Assumptions cache_content_keyed_step.
 
@@ -56,15 +58,15 @@ Print Assumptions same_ver_hypothesis_needed.
 (* 3. AtomicRename: for every history -- every crash point, every racing writer -- no process ever raises and no
       partial file is ever visible under a final name *)
 Theorem atomic_never_raises :
-  forall w s0 ls s, w_disc w = AtomicRename -> 0 < w_nch w ->
+  forall w s0 ls s, w_rt w = RtIgnored -> w_disc w = AtomicRename -> 0 < w_nch w ->
     Inv w s0 -> NoRaise s0 -> quiet w s0 ls -> run w s0 ls = Some s -> NoRaise s.
-Proof. intros w s0 ls s Ha Hn HI HN HQ HR. destruct (run_atomic w Ha Hn ls s0 s HI HQ HR) as [A _]; auto. Qed.
+Proof. intros w s0 ls s Hrt Ha Hn HI HN HQ HR. destruct (run_atomic w Hrt Ha Hn ls s0 s HI HQ HR) as [A _]; auto. Qed.
 Print Assumptions atomic_never_raises.
 
 Theorem no_partial_visible :
-  forall w s0 ls s, w_disc w = AtomicRename -> 0 < w_nch w ->
+  forall w s0 ls s, w_rt w = RtIgnored -> w_disc w = AtomicRename -> 0 < w_nch w ->
     Inv w s0 -> NoPartial w s0 -> quiet w s0 ls -> run w s0 ls = Some s -> NoPartial w s.
-Proof. intros w s0 ls s Ha Hn HI HN HQ HR. destruct (run_atomic w Ha Hn ls s0 s HI HQ HR) as [_ B]; auto. Qed.
+Proof. intros w s0 ls s Hrt Ha Hn HI HN HQ HR. destruct (run_atomic w Hrt Ha Hn ls s0 s HI HQ HR) as [_ B]; auto. Qed.
 Print Assumptions no_partial_visible.
 
 (* 4. AtomicRename: after any history (also one that starts with truncated files planted under final names), a later
@@ -78,7 +80,7 @@ Print Assumptions atomic_later_run_ok.
        later run completes with the parse of the current content *)
 Theorem current_code_safe :
   forall nch g e s0 ls s, 0 < nch ->
-    let w := mkSetup nch g AtomicRename e false in
+    let w := mkSetup nch g AtomicRename e false RtIgnored in
     Inv w s0 -> run w s0 ls = Some s ->
     Inv w s /\ (NoRaise s0 -> NoRaise s) /\ (NoPartial w s0 -> NoPartial w s).
 Proof. exact Proofs.Cache.current_code_safe. Qed.
@@ -86,7 +88,7 @@ Print Assumptions current_code_safe.
 
 Theorem current_code_later_run_ok :
   forall nch g e s0 ls s pid pa, 0 < nch ->
-    let w := mkSetup nch g AtomicRename e false in
+    let w := mkSetup nch g AtomicRename e false RtIgnored in
     Inv w s0 -> run w s0 ls = Some s -> procs s pid = None ->
     outcome_of (load w s pid pa false) pid = ODone (parse g (yaml s pa)).
 Proof. exact Proofs.Cache.current_code_later_run_ok. Qed.
@@ -123,6 +125,27 @@ Example atomic_on_the_refuting_histories :
              outcome_of (solo wA 20 (solo wA 20 s 1) 0) 1 = ODone (parse gI 7) /\
              outcome_of (solo wA 20 (solo wA 20 s 1) 0) 0 = ODone (parse gI 7)).
 Proof. exact atomic_same_histories. Qed.
+
+(* 5b. the in-process cache (MachineModel._runtime_cache, per process: path -> data of the last completed load).
+       Shipped rule (w_rt = RtIgnored: a hit is always overridden by the content-keyed lookup or a re-parse): a load in a
+       process that loaded the path before -- whatever its runtime cache holds, also data of an older content -- returns
+       the parse of the CURRENT content, after any history.  The variant that serves the hit by path is refuted
+       (load, edit, load again in one process returns the old data). *)
+Theorem inproc_load_refines_parse : inproc_stmt RtIgnored.
+Proof. exact inproc_ignored. Qed.
+Print Assumptions inproc_load_refines_parse.
+
+Theorem inproc_served_by_path_refuted : ~ inproc_stmt RtServed.
+Proof. exact inproc_served_refuted. Qed.
+Print Assumptions inproc_served_by_path_refuted.
+
+Example inproc_load_edit_load :
+  let wN := mkSetup 4 gI AtomicRename eI false RtIgnored in
+  let s := run_skip wN (empty_state y0) hist_inproc in
+  outcome_of s 0 = ODone (parse gI 7) /\ yaml s pa0 = 8 /\
+  outcome_of (loadp wN s 1 pa0 false (Some 0)) 1 = ODone (parse gI 8) /\
+  outcome_of (loadp wS s 1 pa0 false (Some 0)) 1 = ODone (parse gI 7).
+Proof. exact inproc_demo. Qed.
 
 (* 6. the lazy (header-only) load of the report generator neither reads nor writes a cache file *)
 Theorem lazy_load_cache_free :
